@@ -88,3 +88,22 @@ claim("C16",
       "lists x 6 record kinds) and on mutated random documents. The bytes -> value tree step is serde_yaml's (not modelled).",
       "Lean 4 proof of accept = declarative table (records proved: files, conditions, gp_info, classes, top-level entries) + exhaustive lattices against the oracle",
       "DESIGN.md §8 C16")
+
+claim("C19",
+      "The model consists of total Lean functions (termination checked by Lean) whose only non-value outcome is the exhausted recursion bound "
+      "of the emitter. Lean theorems (Props/C19.lean): single_segment_count, cycle_is_reported, excluded_returns, cyclic_subgroups_rejected — the "
+      "former panic / stack-overflow sites are error values; the statement that the bound is never exhausted (never_diverges_statement) is not yet "
+      "proved, so a diverge outcome of the model on any run-time case is reported. Run-time part (sampled, cannot be a theorem): valid, "
+      "structurally mutated and raw-byte inputs (truncations, byte flips, deep nesting, alias bombs, huge numbers, non-ASCII names, cyclic tables) "
+      "through the real library under catch_unwind in a child process with address-space limit and timeout — outcome must be a value; successful "
+      "generations with identifier-safe names are handed to GNU ld -m elf_i386 (also ld -r for partial scripts) and ld.lld with every referenced "
+      "file present, and only syntax diagnostics count.",
+      "Lean 4 totality + error-value theorems; sandboxed robustness runs and real-linker syntax acceptance (sampled)", "DESIGN.md §8 C19")
+claim("C20",
+      "Lean theorems (Props/C20.lean) about the model cliRun/fileRun over an abstract file system: write_replaces (a written location holds exactly "
+      "the new content, whatever and however long the old one; all other locations unchanged), options_last_wins, bad_option_fails, exit_zero_iff, "
+      "version_comment_script / version_comment_side_files (the flag removes only the leading comment), stdout_is_script. Tie to the code: the real "
+      "slinky-cli binary built from /repo is run in scratch directories with prior states {absent, sibling files, existing much longer files}, all "
+      "option spellings, -o with {key}, both modes; the resulting tree, stdout and exit class are compared with cliRun. clap's grammar and the OS "
+      "file system are outside the model (partial).",
+      "Lean 4 proof over an abstract file-system model + differential runs of the real CLI binary", "DESIGN.md §8 C20")
